@@ -11,6 +11,7 @@ import (
 	"encoding/binary"
 	"errors"
 	"fmt"
+	"io"
 	"net/netip"
 	"sort"
 	"strings"
@@ -288,6 +289,91 @@ func (s *vfSession) writeToPairStep(x *vfSide, stunLike bool) {
 	s.afterStep()
 }
 
+// floodStep: the reader falls behind.  The peer's data keeps arriving while nothing is read until the agent's receive
+// buffer (1 MB) overflows; then the reader drains it.  Which datagrams were dropped is the buffer's business; what is
+// checked is the accounting: the selected pair's received counters and Conn.BytesReceived advance by exactly what the
+// reader finally got.
+func (s *vfSession) floodStep(x *vfSide) {
+	peer := s.other(x)
+	if s.broken != "" || x.closed || peer == nil || peer.closed || x.conn == nil || peer.conn == nil {
+		return
+	}
+	sn := x.snapshot()
+	psn := peer.snapshot()
+	if sn.Err != nil || psn.Err != nil || sn.Selected == "" || psn.Selected == "" {
+		return
+	}
+	s.afterStepC07() // everything read and tallied up to here
+	var base vfPairSnap
+	for _, p := range sn.Pairs {
+		if p.IsSel {
+			base = p
+		}
+	}
+	recv0 := x.conn.BytesReceived()
+	s.step("flood", x.name, 0, "peer data without a reader until the receive buffer overflows")
+	s.mon.c07 = false
+	payload := make([]byte, 1200)
+	payload[0] = 0x90
+	for i := 0; i < 1000 && s.broken == ""; i++ {
+		binary.BigEndian.PutUint32(payload[1:], uint32(i)) //nolint:gosec
+		w0 := s.sw.wireLen()
+		if _, err := peer.conn.Write(payload); err != nil {
+			break
+		}
+		for _, dg := range s.sw.wireFrom(w0) {
+			if dg.Emitter == peer.name && dg.Stun == nil {
+				if _, err := s.sw.deliverID(dg.ID, false); err != nil {
+					s.broken = err.Error()
+				}
+			}
+		}
+	}
+	s.dropAll()
+	s.mon.c07 = true
+	if s.broken != "" {
+		return
+	}
+	var bytes, reads uint64
+	buf := make([]byte, 9000)
+	for x.a.buf.Count() > 0 {
+		n, err := x.conn.Read(buf)
+		if err != nil {
+			break
+		}
+		bytes += uint64(n) //nolint:gosec
+		reads++
+	}
+	after := x.snapshot()
+	if after.Err != nil {
+		return
+	}
+	s.r.count("c07_floods", 1)
+	if reads < 1000 {
+		s.r.count("c07_floods_that_overflowed_the_buffer", 1)
+	}
+	wit := map[string]any{"side": x.name, "datagrams_sent": 1000, "datagrams_read": reads, "bytes_read": bytes}
+	if got := x.conn.BytesReceived() - recv0; got != bytes {
+		s.viol("C07", "bytes-received-counter", fmt.Sprintf("%s: during the flood Conn.BytesReceived advanced by %d, Read returned %d bytes", x.name, got, bytes), wit)
+	}
+	if after.Selected == sn.Selected {
+		for _, p := range after.Pairs {
+			if p.IsSel && (uint64(p.PktRecv-base.PktRecv) != reads || p.BytesRecv-base.BytesRecv != bytes) {
+				s.viol("C07", "pair-received-counters", fmt.Sprintf("%s: during the flood the selected pair's counters advanced by %d packets / %d bytes received, the reader got %d / %d", x.name, p.PktRecv-base.PktRecv, p.BytesRecv-base.BytesRecv, reads, bytes), wit)
+			}
+		}
+	}
+	// resynchronise the running tallies of both sides with the counters
+	for _, y := range s.sides() {
+		d := s.data(y)
+		d.eligible = map[string]int{}
+		d.selAtTally = "\x00resync"
+		if y.conn != nil {
+			d.bytesRecv, d.bytesSent = y.conn.BytesReceived(), y.conn.BytesSent()
+		}
+	}
+}
+
 // injectData places a data datagram from an arbitrary source towards one of x's sockets.
 func (s *vfSession) injectData(x *vfSide, known bool, stunLike bool) {
 	sn := x.snapshot()
@@ -418,15 +504,40 @@ func (s *vfSession) afterStepC07() {
 			continue
 		}
 		d := s.data(x)
-		buf := make([]byte, 9000)
 		for x.a.buf.Count() > 0 {
+			buf := make([]byte, 9000)
+			short := s.rng.IntN(6) == 0
+			if short {
+				buf = make([]byte, 1+s.rng.IntN(11)) // the application reads with a slice shorter than any datagram (>= 12 bytes)
+			}
 			n, err := x.conn.Read(buf)
-			if err != nil {
+			if err != nil && !(short && errors.Is(err, io.ErrShortBuffer)) {
 				break
 			}
-			d.bytesRecv += uint64(n) //nolint:gosec
+			d.bytesRecv += uint64(n) //nolint:gosec // what Read returned, also when it reported a short buffer
 			d.read++
 			key := string(buf[:n])
+			if short {
+				s.r.count("c07_short_reads", 1)
+				// the datagram is consumed; it is identified by its prefix
+				key = ""
+				for k := range d.eligible {
+					if strings.HasPrefix(k, string(buf[:n])) && (key == "" || k < key) {
+						key = k
+					}
+				}
+				if key == "" {
+					s.viol("C07", "read-unexpected-payload", fmt.Sprintf("%s.Read (short slice) returned %d bytes that are the prefix of no eligible delivered datagram", x.name, n), nil)
+
+					continue
+				}
+				d.eligible[key]--
+				if d.eligible[key] == 0 {
+					delete(d.eligible, key)
+				}
+
+				continue
+			}
 			if vfLooksLikeStun(buf[:n]) {
 				s.viol("C07", "read-yielded-stun", fmt.Sprintf("%s.Read returned %d bytes that parse as a STUN header", x.name, n), nil)
 			}
@@ -489,6 +600,9 @@ func (s *vfSession) chaosC07(n int, budget map[*vfSide]int, pending *[]vfPending
 			x = s.B
 		}
 		switch k := s.rng.IntN(20); {
+		case k == 3 && !s.flooded && s.rng.IntN(40) == 0:
+			s.flooded = true
+			s.floodStep(x)
 		case k == 3:
 			s.writeToPairStep(x, s.rng.IntN(8) == 0)
 		case k <= 2:
